@@ -28,7 +28,7 @@ Live(v, mf) == <<1, v, mf>>
 
 Modelled == {"push_back", "push_back_m", "emplace_back_c", "emplace_back_v", "insert", "insert_m", "emplace_c", "emplace_v",
              "insert_n", "resize", "resize_v", "reserve", "shrink", "assign_n", "erase", "erase_rng", "pop_back", "clear",
-             "ctor_def", "ctor_n", "ctor_nv", "dtor",
+             "ctor_def", "ctor_n", "ctor_nv", "ctor_gen", "dtor",
              \* contiguous (pointer / initializer_list) ranges; other iterator categories are L1 / L0 only
              "assign_rng", "assign_il", "opeq_il", "append_rng", "append_il", "insert_rng", "insert_il", "ctor_rng", "ctor_il",
              \* two-container routines
@@ -58,6 +58,7 @@ ITry(body, handler)  == [t |-> "try", body |-> body, handler |-> handler]
 IUc(items)           == [t |-> "uc", items |-> items]      \* self-cleaning uninitialized_copy / fill / value-construct
 IThrow(what)         == [t |-> "throw", what |-> what]
 IRet(x)              == [t |-> "ret", x |-> x]
+IGen(j)              == [t |-> "gen", j |-> j]                \* one call of the caller's generator (fallible, logged as event 8)
 ITick(fk)            == [t |-> "tick", fk |-> fk]        \* a fallible step of the caller's iterator (no event): 8 dereference, 9 increment
 
 (***************************************************************************)
@@ -69,6 +70,7 @@ StrongKind(cfg) == IF cfg.hasMove /\ (cfg.nothrowMoveCtor \/ ~cfg.copyable) THEN
 Fallible(cfg, ins) ==
   CASE ins.t = "alloc" -> TRUE
     [] ins.t = "tick" -> TRUE
+    [] ins.t = "gen"  -> TRUE
     [] ins.t = "ctor" -> ins.kind \in {0, 1, 3} \/ (ins.kind = 2 /\ ~cfg.nothrowMoveCtor)
     [] ins.t = "asg"  -> ins.kind = 1 \/ (ins.kind = 2 /\ ~cfg.nothrowMoveAssign)
     [] OTHER -> FALSE
@@ -76,6 +78,7 @@ Fallible(cfg, ins) ==
 FaultKind(ins) ==
   CASE ins.t = "alloc" -> 1
     [] ins.t = "tick" -> ins.fk
+    [] ins.t = "gen"  -> 10
     [] ins.t = "ctor" -> (CASE ins.kind = 0 -> 6 [] ins.kind = 1 -> 2 [] ins.kind = 2 -> 3 [] OTHER -> 7)
     [] ins.t = "asg" -> IF ins.kind = 1 THEN 4 ELSE 5
     [] OTHER -> 0
@@ -111,6 +114,7 @@ Prim(cfg, s, ins) ==
          IN [s2 EXCEPT !.evs = Append(@, <<2, ins.r, ins.i, ins.kind, ins.sr, ins.si>>)]
     [] ins.t = "dtor" ->
          [SetCell(s, ins.r, ins.i, Raw) EXCEPT !.evs = Append(@, <<3, ins.r, ins.i, 0, 0, 0>>)]
+    [] ins.t = "gen" -> [s EXCEPT !.evs = Append(@, <<8, 0, ins.j, 0, 0, 0>>)]
     [] ins.t = "sethd" -> [s EXCEPT !.hd[ins.c].cap = ins.cap, !.hd[ins.c].st = ins.st]
     [] ins.t = "setsz" -> [s EXCEPT !.hd[ins.c].sz = ins.sz]
     [] ins.t = "setp"  -> [s EXCEPT !.hd[ins.c].p = ins.p, !.hd[ins.c].al = ins.al]
@@ -666,6 +670,19 @@ Script(cfg, pre, ln, id) ==
     [] op = "clear"          -> <<ISetSz(c, 0)>> \o DestroyRange(R, 0, x.sz)
     [] op = "dtor"           -> DestroyRange(R, 0, x.sz) \o (IF x.st > 0 THEN <<IDealloc(x.st, x.cap, x.al)>> ELSE <<>>) \o <<ISetP(c, FALSE, 0)>>
     [] op = "ctor_def"       -> <<ISetP(c, TRUE, IF cfg.isStd THEN 0 ELSE IF a[1] = 0 THEN 1 ELSE a[1]), ISetHd(c, N, 0), ISetSz(c, 0)>>
+    [] op = "ctor_gen" ->
+         \* generator constructor (3425): every element is g ()'s temporary moved into place; a failure destroys what was built
+         LET al == IF cfg.isStd THEN 0 ELSE IF a[1] = 0 THEN 1 ELSE a[1]
+             n  == a[2]
+             Rn == IF n > N THEN 10 + id ELSE InlRegion(c)
+             one(j) == ITry(<<IGen(j), ICtor(3, 0, 3, 0, 0, ln.v[j + 1]),
+                              ITry(<<ICtor(Rn, j, MoveKind(cfg), 3, 0, 0)>>, <<IDtor(3, 0)>>), IDtor(3, 0)>>,
+                            DestroyRange(Rn, 0, j))
+             body == Seqq(0, n, one)
+         IN IF n > N THEN
+              IF n > cfg.max THEN <<IThrow("length_error")>>
+              ELSE <<IAlloc(id, n, al), ITry(body, <<IDealloc(id, n, al)>>), ISetP(c, TRUE, al), ISetHd(c, n, id), ISetSz(c, n)>>
+            ELSE body \o <<ISetP(c, TRUE, al), ISetHd(c, N, 0), ISetSz(c, n)>>
     [] op \in {"ctor_n", "ctor_nv"} ->
          \* count constructors (3385-3425): allocate exactly n when n > N, fill, a failure destroys nothing but the block
          LET al == IF cfg.isStd THEN 0 ELSE IF a[1] = 0 THEN 1 ELSE a[1]
